@@ -141,7 +141,7 @@ class C03(core.Check):
                                        'e:mid-line/same-line', 'last:byte', 'last:label', 'last:muted', 'last:zero-length',
                                        'last:org', 'fill!=0', 'predefined-data', 'muted-region', 'stale-longer-image-present', 'mute-around-include',
                                        's:below-redefined-global', 'e:above-redefined-global', 'e:beyond-address-space',
-                                       'muted-embedded-string', 'surplus-unmute-before-a-muted-region']}
+                                       'muted-embedded-string', 'surplus-unmute-before-a-muted-region', 'mute-change-inside-a-conditional-branch']}
 
     def make_case(self, isa, lines, res, lk, s, e, fill, tags):
         fn, text = isamod.render_isa(isa, 'json')
@@ -226,6 +226,22 @@ class C03(core.Check):
                                         'M': {str(a_): v_ for a_, v_ in enumerate(out)}},
                                'tags': ['s:0', 'e:absent', 'muted-region', 'mute-around-include', f'include-at-mute-depth:{depth}'] +
                                        (['fill!=0'] if fill else [])}
+        # a #mute / #unmute inside a compiled branch stays in force when the chain moves on to its #elif / #else / #endif
+        for k_, (body, out_) in enumerate([
+                (['.byte $11', '#if 1', '#mute', '#else', '.byte $99', '#endif', '.byte $22', '#unmute', '.byte $33'], [0x11, None, 0x33]),
+                (['.byte $11', '#if 0', '.byte $98', '#elif 1', '#mute', '#elif 1', '#unmute', '#else', '#unmute', '#endif', '.byte $22', '#emit', '.byte $33'],
+                 [0x11, None, 0x33]),
+                (['#mute', '.byte $11', '#if 1', '#unmute', '#else', '#mute', '#endif', '.byte $22', '.byte $33'], [None, 0x22, 0x33]),
+                (['.byte $11', '#ifdef C03_NOT_DEFINED', '#else', '#mute', '#endif', '.byte $22', '#if 1', '#emit', '#elif 1', '#mute', '#endif', '.byte $33'],
+                 [0x11, None, 0x33]),
+                (['.byte $11', '#if 1', '#if 1', '#mute', '#else', '#endif', '#else', '#endif', '.byte $22, $23', '#unmute', '.byte $33'], [0x11, None, None, 0x33])]):
+            for fill in (0xEE, 0):
+                exp_ = bytes(fill if v_ is None else v_ for v_ in out_)
+                argv = ['compile', '-c', fn_i, 'p.asm', '-o', 'out.bin'] + (['-f', str(fill)] if fill else [])
+                yield {'runs': [{'files': {fn_i: text_i, 'p.asm': '\n'.join(body) + '\n'}, 'argv': argv, 'probes': ['steps', 'files'], 'step_limit': 200000}],
+                       'meta': {'expected': exp_.hex(), 'kind': 'ACCEPT', 'why': '', 'window': [0, None, fill],
+                                'M': {str(a_): v_ for a_, v_ in enumerate(out_) if v_ is not None}},
+                       'tags': ['s:0', 'e:absent', 'muted-region', 'mute-change-inside-a-conditional-branch'] + (['fill!=0'] if fill else [])}
         # windows that reach outside a redefined GLOBAL zone, or beyond a small address space: the window is what the
         # command line says, whatever the zones are
         for ab, gs, ge in [(8, 0x10, 0xEF), (8, 0, 0x7F), (8, 0x20, 0xFF), (4, 0, 15), (5, 2, 29), (16, 0x100, 0xFFF)]:
